@@ -175,11 +175,21 @@ impl TypeDependencyGraph {
             self.show_dependency_chain(type_name, &mut output, 0);
         }
 
+        // Count the files that define the discovered types. (This used to print the size
+        // of the whole definition index - every serde type in the project, reachable or
+        // not - so the report changed when an unrelated type was added or removed,
+        // without anything the generation cache looks at having changed.)
+        let files_with_definitions: HashSet<&str> = self
+            .resolved_types
+            .values()
+            .map(|s| s.file_path.as_str())
+            .collect();
+
         output.push_str(&format!(
             "\n📊 Summary:\n• {} commands analyzed\n• {} types discovered\n• {} files with type definitions\n",
             entry_commands.len(),
             self.resolved_types.len(),
-            self.type_definitions.len()
+            files_with_definitions.len()
         ));
 
         output
